@@ -36,6 +36,7 @@ import (
 	"fmt"
 	"math/rand"
 	"os"
+	"strings"
 	"time"
 
 	"github.com/notaryproject/notation-core-go/revocation"
@@ -116,6 +117,7 @@ type world struct {
 	caStoreTS *TSA            // root held by the *ca* store of the signing chain's type only (not a tsa store)
 	expired   *TSA            // root A, signing certificate expired 50 days ago (valid at earlier timestamps only)
 	crlTSA    map[string]*TSA // root A, signing certificates naming a CRL distribution point (stages.go)
+	interTSA  map[string]*TSA // root A -> intermediate CA (own EKU: none / timeStamping / codeSigning / serverAuth+clientAuth) -> signer
 }
 
 func newWorld() *world {
@@ -132,6 +134,15 @@ func newWorld() *world {
 	w.badKU = NewTSA(TSAOpts{Tag: "A-keyusage", NotBefore: nb, NotAfter: na, Root: w.tsaA.Root, LeafKeyUsage: x509.KeyUsageDigitalSignature | x509.KeyUsageKeyEncipherment})
 	w.short = NewTSA(TSAOpts{Tag: "A-short", NotBefore: base.Add(-400 * day * time.Second), NotAfter: base.Add(-399 * day * time.Second), Root: w.tsaA.Root})
 	w.crlTSA = newCRLTSAs(w.tsaA.Root, nb, na)
+	w.interTSA = map[string]*TSA{}
+	for name, eku := range map[string][]x509.ExtKeyUsage{
+		"interNoEKU":        nil,
+		"interTimeStamping": {x509.ExtKeyUsageTimeStamping},
+		"interCodeSigning":  {x509.ExtKeyUsageCodeSigning},
+		"interServerAuth":   {x509.ExtKeyUsageServerAuth, x509.ExtKeyUsageClientAuth},
+	} {
+		w.interTSA[name] = NewTSA(TSAOpts{Tag: "A-" + name, NotBefore: nb, NotAfter: na, Root: w.tsaA.Root, Intermediate: true, InterEKU: eku})
+	}
 	w.expired = NewTSA(TSAOpts{Tag: "A-expired", NotBefore: nb, NotAfter: base.Add(-50 * day * time.Second), Root: w.tsaA.Root})
 	return w
 }
@@ -178,6 +189,7 @@ type plan struct {
 	origin    int64 // what the clock reading is called in the model's input (nanoseconds)
 	focus     string
 	stmt      string              // name of the trust policy statement
+	level     string              // shape of signatureVerification (see levelShapes); "" = logBoth
 	content   map[string][]string // TSA roots ("A","B","C") held by the tsa stores "c06tsa" and "other" in this case
 }
 
@@ -456,6 +468,11 @@ func genPlanRaw(r *rand.Rand) plan {
 		case 16:
 			// the validator does not answer with one result per TSA certificate (the chain has two)
 			p.rev, p.tokenKind = pick(r, []string{}, []string{"ok"}, []string{"ok", "ok", "ok"}, []string{"nonRevokable"}, []string{"ok", "ok", "revoked"}), "revocationResultCount"
+		case 17:
+			// the TSA's issuing CA is itself restricted to another purpose: no valid path for time stamping
+			p.token, p.tokenKind = "interCodeSigning", "intermediateCaForCodeSigningOnly"
+		case 18:
+			p.token, p.tokenKind = "interServerAuth", "intermediateCaForTlsOnly"
 		}
 	}
 	switch x := r.Intn(100); {
@@ -466,15 +483,28 @@ func genPlanRaw(r *rand.Rand) plan {
 		if r.Intn(4) == 0 {
 			p.rev = pick(r, []string{"nonRevokable", "ok"}, []string{"ok", "nonRevokable"}, []string{"nonRevokable", "nonRevokable"})
 		}
+		if p.token == "A" && r.Intn(5) == 0 {
+			// a TSA hierarchy with an intermediate CA that has no EKU of its own, or the time stamping one: fine
+			p.token = pick(r, "interNoEKU", "interTimeStamping")
+			p.tokenKind = "good(" + p.token + ")"
+		}
 	case x < 88:
-		fault(r.Intn(17))
+		fault(r.Intn(19))
 	default:
-		fault(r.Intn(17))
+		fault(r.Intn(19))
 		k := p.tokenKind
-		fault(r.Intn(17))
+		fault(r.Intn(19))
 		_ = k
 		p.tokenKind = "twoFaults"
 	}
+
+	if strings.HasPrefix(p.token, "inter") && len(p.rev) == 2 {
+		p.rev = []string{p.rev[0], pick(r, "ok", "ok", "nonRevokable"), p.rev[1]} // one result per certificate of the longer chain
+	}
+	// the level / override shape of the statement: the TSA revocation check and the verdicts observed here
+	// must not depend on it (revocation: skip concerns the SIGNING chain only)
+	p.level = pick(r, "logBoth", "logBoth", "logBoth", "logBoth+revocationSkip", "logBoth+revocationSkip",
+		"strict+revocationSkip", "permissive+timestampEnforce+revocationSkip", "audit+revocationSkip")
 
 	// time range of the token relative to the common interval [lo, hi] of the windows
 	p.accS = int(pick[int64](r, 0, 0, 1, 1, 2, 30, 3600))
@@ -624,6 +654,9 @@ func concretise(w *world, p plan, id int, ref time.Time) *prepared {
 	in := Input{Scheme: p.scheme, SigningTime: rel(signingTime), Option: p.option,
 		TsaListed: len(p.stores) > 0, TsaStoresLoad: !contains(p.stores, "broken"),
 		TsaRevocationError: p.revErr, TsaRevocation: p.rev, TsaChainLen: 2}
+	if _, ok := w.interTSA[p.token]; ok {
+		in.TsaChainLen = 3
+	}
 	for _, st := range p.stores {
 		in.TsaStoresNonEmpty = in.TsaStoresNonEmpty || len(p.contentOf(st)) > 0
 	}
@@ -651,7 +684,10 @@ func concretise(w *world, p plan, id int, ref time.Time) *prepared {
 		if tsa == nil {
 			tsa = w.crlTSA[p.token]
 		}
-		q.tsaChain = []*x509.Certificate{tsa.Leaf.Cert, tsa.Root.Cert}
+		if tsa == nil {
+			tsa = w.interTSA[p.token]
+		}
+		q.tsaChain = tsa.Chain()
 		msg := env.SignatureValue()
 		if p.wrongMsg {
 			msg = build().SignatureValue() // a token issued for another signature over the same content
@@ -664,12 +700,16 @@ func concretise(w *world, p plan, id int, ref time.Time) *prepared {
 		if _, ok := w.crlTSA[p.token]; ok {
 			root = "A"
 		}
+		if _, ok := w.interTSA[p.token]; ok {
+			root = "A"
+		}
 		validAt := func(c *x509.Certificate) bool { return !gen.Before(c.NotBefore) && !gen.After(c.NotAfter) }
-		purposeOK := p.token != "nonCrit" && p.token != "codeSign" && p.token != "twoEKU"
+		purposeOK := p.token != "nonCrit" && p.token != "codeSign" && p.token != "twoEKU" &&
+			p.token != "interCodeSigning" && p.token != "interServerAuth" // EKUs nest along the path (crypto/x509)
 		in.Token = &Token{Parses: true, ImprintMatches: !p.wrongMsg, GenTime: rel(gen),
 			AccSeconds: p.accS, AccMillis: p.accMs, AccMicros: p.accUs, BaselinePolicy: p.baseline,
 			TsaRootListed: p.trusted(root),
-			TsaCertOk:     purposeOK && !p.badSig && validAt(tsa.Leaf.Cert) && validAt(tsa.Root.Cert),
+			TsaCertOk:     purposeOK && !p.badSig && validAt(tsa.Leaf.Cert) && validAt(tsa.Root.Cert) && (tsa.Inter == nil || validAt(tsa.Inter.Cert)),
 			ChainRulesOk:  p.token != "badKU"}
 	}
 	q.sigBlob = env.WithTimestamp(token)
@@ -764,12 +804,42 @@ func (s *session) checkRevocationArgs(q *prepared) (tsaOk, signingOk bool) {
 	return
 }
 
-func (s *session) newVerifier(stmt string, trustStores []string, option string) ociVerifier {
-	sv := trustpolicy.SignatureVerification{VerificationLevel: "strict",
-		Override: map[trustpolicy.ValidationType]trustpolicy.ValidationAction{
-			trustpolicy.TypeExpiry:             trustpolicy.ActionLog,
-			trustpolicy.TypeAuthenticTimestamp: trustpolicy.ActionLog,
-		}}
+// levelShapes: the level / override combinations the statements use.  expiry is never enforced (so that
+// authenticTimestamp is always evaluated); authenticTimestamp is logged or enforced; signing-chain
+// revocation is enforced (scripted OK) or switched off with the override `revocation: skip` - which
+// concerns the signing chain only: the TSA chain's revocation check belongs to authenticTimestamp.
+var levelShapes = map[string]trustpolicy.SignatureVerification{
+	"logBoth": {VerificationLevel: "strict", Override: map[trustpolicy.ValidationType]trustpolicy.ValidationAction{
+		trustpolicy.TypeExpiry: trustpolicy.ActionLog, trustpolicy.TypeAuthenticTimestamp: trustpolicy.ActionLog}},
+	"logBoth+revocationSkip": {VerificationLevel: "strict", Override: map[trustpolicy.ValidationType]trustpolicy.ValidationAction{
+		trustpolicy.TypeExpiry: trustpolicy.ActionLog, trustpolicy.TypeAuthenticTimestamp: trustpolicy.ActionLog,
+		trustpolicy.TypeRevocation: trustpolicy.ActionSkip}},
+	"strict+revocationSkip": {VerificationLevel: "strict", Override: map[trustpolicy.ValidationType]trustpolicy.ValidationAction{
+		trustpolicy.TypeExpiry: trustpolicy.ActionLog, trustpolicy.TypeRevocation: trustpolicy.ActionSkip}},
+	"permissive+timestampEnforce+revocationSkip": {VerificationLevel: "permissive", Override: map[trustpolicy.ValidationType]trustpolicy.ValidationAction{
+		trustpolicy.TypeAuthenticTimestamp: trustpolicy.ActionEnforce, trustpolicy.TypeRevocation: trustpolicy.ActionSkip}},
+	"audit+revocationSkip": {VerificationLevel: "audit", Override: map[trustpolicy.ValidationType]trustpolicy.ValidationAction{
+		trustpolicy.TypeRevocation: trustpolicy.ActionSkip}},
+}
+
+func levelOf(p *plan) string {
+	if p.level == "" {
+		return "logBoth"
+	}
+	return p.level
+}
+
+// timestampEnforced: an authenticTimestamp failure makes verifier.Verify return an error under this shape
+func timestampEnforced(level string) bool {
+	return level == "strict+revocationSkip" || level == "permissive+timestampEnforce+revocationSkip"
+}
+
+func (s *session) newVerifier(stmt string, trustStores []string, option string, level string) ociVerifier {
+	shape := levelShapes[level]
+	sv := trustpolicy.SignatureVerification{VerificationLevel: shape.VerificationLevel, Override: map[trustpolicy.ValidationType]trustpolicy.ValidationAction{}}
+	for k, v := range shape.Override {
+		sv.Override[k] = v
+	}
 	if option != "unset" {
 		sv.VerifyTimestamp = trustpolicy.TimestampOption(option)
 	}
@@ -794,10 +864,10 @@ func stmtOf(p *plan) string {
 
 // verifierFor returns the long-lived verifier of the policy shape.
 func (s *session) verifierFor(q *prepared) ociVerifier {
-	key := fmt.Sprint(stmtOf(&q.p), q.trustStores, q.p.option)
+	key := fmt.Sprint(stmtOf(&q.p), q.trustStores, q.p.option, levelOf(&q.p))
 	v, ok := s.verifiers[key]
 	if !ok {
-		v = s.newVerifier(stmtOf(&q.p), q.trustStores, q.p.option)
+		v = s.newVerifier(stmtOf(&q.p), q.trustStores, q.p.option, levelOf(&q.p))
 		s.verifiers[key] = v
 	}
 	s.uses[key]++
@@ -842,7 +912,7 @@ func (s *session) execute(q *prepared, fresh bool) (Obs, time.Time, time.Time) {
 	if fresh {
 		host = newSessionWith(s.w, s.realTS)
 		host.script(q)
-		v = host.newVerifier(stmtOf(&q.p), q.trustStores, q.p.option)
+		v = host.newVerifier(stmtOf(&q.p), q.trustStores, q.p.option, levelOf(&q.p))
 	} else {
 		s.script(q)
 		v = s.verifierFor(q)
@@ -877,7 +947,8 @@ func (s *session) execute(q *prepared, fresh bool) (Obs, time.Time, time.Time) {
 	// The scenario makes integrity and authenticity pass (the chain's root is in the listed store
 	// of the scheme's type), so both results must be there; if an earlier validation stopped the
 	// verification the case is reported as "not evaluated" - a violation with a replay, not a crash.
-	o.Evaluated = seenE && seenT && verr == nil
+	// verifier.Verify returns an error exactly when authenticTimestamp is enforced and failed (nothing else can fail here)
+	o.Evaluated = seenE && seenT && (verr != nil) == (timestampEnforced(levelOf(&q.p)) && o.AuthTsFailed)
 	o.TsaRevocationArgsOk, o.SigningRevocationArgsOk = host.checkRevocationArgs(q)
 	if !o.Evaluated {
 		o.ExpiryFailed, o.AuthTsFailed = false, false
@@ -1127,6 +1198,7 @@ func Run(c *common.Ctx) error {
 		}
 		c.Count("scheme=" + p.scheme)
 		c.Count("option=" + p.option)
+		c.Count("level=" + levelOf(&p))
 		c.Count("focus=" + p.focus)
 		c.Count(fmt.Sprintf("chainLen=%d", len(p.nb)))
 		c.Count(fmt.Sprintf("tsaStores=%v", p.stores))
@@ -1165,7 +1237,7 @@ func Run(c *common.Ctx) error {
 			}
 		}
 	}
-	c.Note("random product of: scheme x chain length 1..4 with independent per-certificate windows (valid / one expired / one not yet valid / mixed / barely valid at 60 s / expired long ago) x signing time on, one ns / one s off and far from the window boundaries x expiry absent / past / future x tsa store listings (none, listed, other, both, empty, failing, duplicate; any position) x verifyTimestamp unset/always/afterCertExpiry x countersignature (absent, garbage, good, 17 single faults, double faults) x time range (inside, on the boundaries, 1 us / 1 ms / 1 s outside, before, after, huge accuracy, baseline-policy default accuracy); hand-assembled ES256 JWS envelopes, local RFC 3161 TSA, real verifier.Verify with expiry/authenticTimestamp set to log. `now` is the harness's clock reading; everything compared with the clock is at least 60 s away from it.")
+	c.Note("random product of: scheme x chain length 1..4 with independent per-certificate windows (valid / one expired / one not yet valid / mixed / barely valid at 60 s / expired long ago) x signing time on, one ns / one s off and far from the window boundaries x expiry absent / past / future x tsa store listings (none, listed, other, both, empty, failing, duplicate; any position) x verifyTimestamp unset/always/afterCertExpiry x countersignature (absent, garbage, good - also from TSAs with an intermediate CA without EKU / with the time stamping EKU -, 19 single faults incl. an intermediate CA restricted to code signing or to TLS, double faults) x level shape (expiry/authenticTimestamp logged; the same with the override revocation: skip; strict, permissive with authenticTimestamp enforced, audit - each with revocation: skip) x time range (inside, on the boundaries, 1 us / 1 ms / 1 s outside, before, after, huge accuracy, baseline-policy default accuracy); hand-assembled ES256 JWS envelopes, local RFC 3161 TSA, real verifier.Verify with expiry/authenticTimestamp set to log. `now` is the harness's clock reading; everything compared with the clock is at least 60 s away from it.")
 	c.Note("state across calls: two tenants (separate trust store, validator and verifier objects, same statement and store names) run interleaved; per tenant one long-lived verifier per policy shape (statement name x store list x option: %d verifier objects, the busiest used %d times); the contents of the stores change from case to case under unchanged names - the signing root under ca:c06 / signingAuthority:c06 is new in every case, tsa:c06tsa and tsa:other hold varying subsets of three TSA roots - so the same statement name and store list see a TSA root trusted-then-distrusted and distrusted-then-trusted many times (history=... counters), on the same verifier, on the other tenant's, and on the brand-new verifier over brand-new store objects that every tenth case uses; the validator answers with 0..3 results for the 2-certificate TSA chain.", shapes, maxUses)
 	c.Note("long-lived-verifier cases (%d envelopes): expiry / NotAfter / NotBefore = T+4 s, verified on a long-lived verifier at T (phase 1) and again, after the whole case stream, at >= T+7 s on the SAME verifier and on a new one (phase 2); for these cases only, the clock margin is relaxed from 60 s to >= 1.5 s (phase 1) / >= 3 s (phase 2); they test that verdicts follow the real clock over a verifier's lifetime, not boundaries; a case whose margin was lost to a stall is skipped and counted.", len(ll))
 	return nil
